@@ -339,7 +339,34 @@ func runChild(mode string) {
 		childC07()
 	case "conc":
 		childConc()
+	case "cold":
+		childCold()
 	}
+}
+
+// childCold: evaluates (rule, object) lines in a process in which nothing else has been parsed before.
+func childCold() {
+	sc := bufio.NewScanner(os.Stdin)
+	sc.Buffer(make([]byte, 1<<20), 1<<26)
+	w := bufio.NewWriter(os.Stdout)
+	defer w.Flush()
+	for sc.Scan() {
+		f := strings.SplitN(sc.Text(), "\t", 2)
+		if len(f) != 2 {
+			continue
+		}
+		fmt.Fprintln(w, evalFresh(unhx(f[0]), avFromProto(f[1]).GoMap()).Line())
+	}
+}
+
+func (c *Ctx) coldReference(lines []string) []string {
+	cmd := exec.Command(c.Self, "-child", "cold")
+	cmd.Stdin = strings.NewReader(strings.Join(lines, "\n") + "\n")
+	out, err := cmd.Output()
+	if err != nil {
+		return nil
+	}
+	return strings.Split(strings.TrimRight(string(out), "\n"), "\n")
 }
 
 // ---------- C14 ----------
@@ -390,6 +417,22 @@ func checkC14(c *Ctx) {
 			continue
 		}
 		c.sample(map[string]string{"rule": s, "object": o.Pretty(), "outcome": ob.Line()})
+		// a related text (other letter case / other white space) right afterwards: a cache keyed too coarsely shows here
+		if c.R.Chance(1, 2) {
+			s2 := relatedText(c.R, s)
+			if s2 != s {
+				ob2 := evalFresh(s2, m)
+				rv2, re2, resc2 := rulesEvaluate(s2, m)
+				pv2, pesc2 := parserEvaluate(s2, m)
+				c.Res.Evaluations++
+				c.count("related_text_followup")
+				if ob2.Escaped == "" && resc2 == "" && pesc2 == "" && (rv2 != ob2.V || (re2 != "-") != (ob2.E != "-") || pv2 != ob2.V) {
+					c.violate(Violation{Kind: "history", What: "the entry points disagree on a text evaluated after a related text", Rule: s2, RuleHex: hx(s2), Object: o.Pretty(), ObjProto: o.String(),
+						Ops: fmt.Sprintf("first all three entry points on %q, then on %q", s, s2), Demand: "same verdict and same error-or-not from all three entry points",
+						Go: fmt.Sprintf("rules.Evaluate=(%v,%s) NewEvaluator+Process=(%v,%s) parser.Evaluate=%v", rv2, re2, ob2.V, ob2.E, pv2)})
+				}
+			}
+		}
 	}
 }
 
@@ -458,14 +501,18 @@ func checkC11(c *Ctx) {
 	n := c.budget(500, 25000)
 	for i := 0; i < n && !c.full(); i++ {
 		type slot struct {
-			text  string
-			tree  *Node
-			ev    *parser.Evaluator
-			syn   bool
-			opsP  []string // for SEQP
-			outs  []string // observed
-			hist  []string // readable
-			kinds map[string]bool
+			text      string
+			tree      *Node
+			ev        *parser.Evaluator
+			syn       bool
+			opsP      []string // for SEQP
+			outs      []string // observed
+			hist      []string // readable
+			kinds     map[string]bool
+			variantOf string
+			coldIn    []string
+			coldGot   []string
+			coldObj   []string
 		}
 		var pool []*slot
 		mk := func() {
@@ -473,12 +520,20 @@ func checkC11(c *Ctx) {
 			if len(s) > 400 {
 				s = c.style(false).Render(t)
 			}
+			variantOf := ""
+			if len(pool) > 0 && c.R.Chance(1, 3) {
+				// a text that differs from an earlier one only in letter case or white space
+				base := pick(c.R, pool)
+				if s2 := relatedText(c.R, base.text); s2 != base.text {
+					s, t, variantOf = s2, base.tree, base.text
+				}
+			}
 			ev, err, esc := newEvaluator(s)
 			if esc != "" || err != nil || ev == nil {
 				return
 			}
 			fresh := evalFresh(s, nil)
-			pool = append(pool, &slot{text: s, tree: t, ev: ev, syn: fresh.E == "syn", kinds: map[string]bool{}})
+			pool = append(pool, &slot{text: s, tree: t, ev: ev, syn: fresh.E == "syn", kinds: map[string]bool{}, variantOf: variantOf})
 		}
 		mk()
 		if len(pool) == 0 {
@@ -505,6 +560,11 @@ func checkC11(c *Ctx) {
 					k = steps
 					break
 				}
+				if sl.variantOf != "" && !strings.Contains(o.String(), "X ") {
+					sl.coldIn = append(sl.coldIn, hx(sl.text)+"\t"+o.String())
+					sl.coldGot = append(sl.coldGot, got.Line())
+					sl.coldObj = append(sl.coldObj, o.Pretty())
+				}
 				sl.opsP = append(sl.opsP, "P "+fresh.Fields())
 				sl.outs = append(sl.outs, got.Line())
 				sl.hist = append(sl.hist, "Process("+o.Pretty()+")")
@@ -530,6 +590,21 @@ func checkC11(c *Ctx) {
 		}
 		if c.full() {
 			break
+		}
+		for _, sl := range pool {
+			if len(sl.coldIn) == 0 {
+				continue
+			}
+			c.count("variant_text_vs_cold_process")
+			ref := c.coldReference(sl.coldIn)
+			for j := range ref {
+				if j < len(sl.coldGot) && ref[j] != sl.coldGot[j] {
+					c.violate(Violation{Kind: "history", What: "a rule parsed after a related rule (same text up to letter case / white space) behaves differently from the same rule in a fresh process",
+						Rule: sl.text, RuleHex: hx(sl.text), Object: sl.coldObj[j], Ops: fmt.Sprintf("NewEvaluator(%q) earlier in the process, then NewEvaluator(%q).Process(...)", sl.variantOf, sl.text),
+						Demand: "what a fresh process returns: " + ref[j], Go: sl.coldGot[j]})
+					break
+				}
+			}
 		}
 		var lines []string
 		var used []*slot
